@@ -379,12 +379,18 @@ impl Interpreter {
                 let a = state.stack.pop_bigint()?;
                 let b = state.stack.pop_bigint()?;
 
+                if b == BigInt::from(0) {
+                    return Err(InterpreterError::InvalidStackOperation("OP_DIV by zero"));
+                }
                 state.stack.push_bigint(a / b)?;
             }
             OpCodes::OP_MOD => {
                 let a = state.stack.pop_bigint()?;
                 let b = state.stack.pop_bigint()?;
 
+                if b == BigInt::from(0) {
+                    return Err(InterpreterError::InvalidStackOperation("OP_MOD by zero"));
+                }
                 state.stack.push_bigint(a % b)?;
             }
             OpCodes::OP_LSHIFT => {
